@@ -435,7 +435,7 @@ example (s : List Nat) (hs : s = [97, 32, 98, 99] ∨ s = [97, 98, 32, 99]) :
     exact ⟨_, hm.2.1⟩
   have key := fun s q0 q1 hq0 hq1 hadj hsep hchars =>
     C14_split_found_tokenized_src exSorter exSorter_ok toyU Gen.lang_en toyStem toyU_facts tablesOK_en
-      (fun _ => toyStem_bounded _) exOpsS hops (by decide +kernel) 0
+      (toyStemHyp _ (by decide)) exOpsS hops (by decide +kernel) 0
       { ix := 0, id := 7, title := tokenizeRecord Gen.srcProg exEnvE [65, 98, 99], rating := 1 }
       (by decide +kernel) s q0 q1 hq0 hq1 hadj 32 hsep (by decide +kernel)
       { offset := 0, lo := 0, hi := 3, stem := 2, pos := none, fin := true } (by decide +kernel) (by decide) hchars
